@@ -82,29 +82,29 @@ class U8Gate(GeneralGate, CachedClass):
         params = [0.0] * 8
 
         mag = np.linalg.det(utry.numpy) ** (-1 / 3)
-        su = mag * utry
+        su = mag * utry.numpy
 
-        params[5] = np.arctan2(su[0][1].imag, su[0][1].real)
+        # All sines and cosines of the three angles are non-negative, so
+        # every angle is read off two moduli and every phase off one entry:
+        # nothing is divided by a cosine or sine that may vanish.
+        c1 = np.sqrt(np.abs(su[0, 0]) ** 2 + np.abs(su[0, 2]) ** 2)
+        params[0] = np.arctan2(np.abs(su[0, 1]), c1)
+        params[5] = np.angle(su[0, 1])
 
-        s1 = (su[0][1] * np.exp(-1j * params[5])).real
-        params[0] = np.arcsin(s1)
+        if c1 > 1e-7:
+            params[1] = np.arctan2(np.abs(su[0, 2]), np.abs(su[0, 0]))
+            params[2] = np.arctan2(np.abs(su[2, 1]), np.abs(su[1, 1]))
+            params[3] = np.angle(su[0, 0])
+            params[4] = np.angle(su[1, 1])
+            params[6] = np.angle(su[0, 2])
+            params[7] = np.angle(su[2, 1])
 
-        c2p1 = su[0][0] / np.cos(params[0])
-        params[3] = np.arctan2(c2p1.imag, c2p1.real)
+        else:
+            # Only su[0, 1] is left in the first row and the middle column.
+            # The remaining 2x2 block fixes one angle and two phases; the
+            # other angle and phases are redundant there and stay zero.
+            params[1] = np.arctan2(np.abs(su[2, 0]), np.abs(su[2, 2]))
+            params[3] = -np.angle(su[2, 2])
+            params[6] = np.pi - np.angle(su[2, 0])
 
-        c2 = (c2p1 * np.exp(-1j * params[3])).real
-        params[1] = np.arccos(c2)
-
-        c3p2 = su[1][1] / np.cos(params[0])
-        params[4] = np.arctan2(c3p2.imag, c3p2.real)
-
-        c3 = (c3p2 * np.exp(-1j * params[4])).real
-        params[2] = np.arccos(c3)
-
-        p4 = su[0][2] / (np.cos(params[0]) * np.sin(params[1]))
-        params[6] = np.arctan2(p4.imag, p4.real)
-
-        p5 = su[2][1] / (np.cos(params[0]) * np.sin(params[2]))
-        params[7] = np.arctan2(p5.imag, p5.real)
-
-        return params
+        return [float(p) for p in params]
